@@ -359,6 +359,10 @@ func determChild(prop, tier string, idx, nh, nl int) int {
 				break
 			}
 		}
+		govBurstC06(h, r, run, func() {
+			h.EndBlock()
+			judge()
+		})
 		for k := 0; k < nl; k++ {
 			op := ops[r.Pick(wts)]
 			c := op.Build(h, r)
